@@ -51,9 +51,11 @@ def gen_programs(prop, seed, n, tier, outfile, profile="sweep_profile"):
     # seed corpus first: hand-written small programs every sweep of this property covers
     import copy
     from sim import sweep_corpus
-    if not hasattr(mod, "case_strategy"):
-        for name in sweep_corpus.FOR.get(prop, []):
-            case = copy.deepcopy(sweep_corpus.CORPUS[name])
+    named = [(nm, sweep_corpus.CORPUS[nm]) for nm in sweep_corpus.FOR.get(prop, [])] if not hasattr(mod, "case_strategy") else []
+    named += [(f"own{i}", c) for i, c in enumerate(getattr(mod, "SWEEP_CORPUS", []))]
+    if named:
+        for name, proto in named:
+            case = copy.deepcopy(proto)
             if hasattr(mod, "adjust"):
                 case = mod.adjust(case)
             case["_exclusions"] = findings_sim.active_exclusions()
